@@ -1044,6 +1044,8 @@ impl HomeRelayWatch {
     /// the time the old actor tries to write, the URL no longer matches.
     fn set_status(&self, url: &RelayUrl, state: RelayConnectionState) {
         if self.inner.get().as_ref().map(RelayStatus::url) == Some(url) {
+            #[cfg(iroh_verif)]
+            crate::verif_hooks::pause::point("home_relay:status-checked");
             let _ = self.inner.set(Some(RelayStatus::new(url.clone(), state)));
         }
     }
@@ -1444,6 +1446,88 @@ pub(crate) struct RelayRecvDatagram {
     pub(crate) url: RelayUrl,
     pub(crate) src: EndpointId,
     pub(crate) datagrams: Datagrams,
+}
+
+/// Verification hooks, compiled only with `--cfg iroh_verif`: drive the crate-private
+/// [`HomeRelayWatch`] directly (the pause points inside it are armed per thread through
+/// [`crate::verif_hooks::pause`]).
+#[cfg(iroh_verif)]
+pub mod verif_hooks {
+    use std::sync::Arc;
+
+    use iroh_base::RelayUrl;
+    use n0_error::AnyError;
+
+    use super::{HomeRelayWatch, RelayConnectionState};
+    use crate::endpoint::RelayStatus;
+
+    /// Connection state codes used by [`HomeRelay`].
+    ///
+    /// `0` connecting, `1` connected, `2` disconnected without error, `3` disconnected with
+    /// a (fresh) error.
+    pub type StateCode = u8;
+
+    fn state_of(code: StateCode) -> RelayConnectionState {
+        match code {
+            0 => RelayConnectionState::Connecting,
+            1 => RelayConnectionState::Connected,
+            2 => RelayConnectionState::Disconnected { last_error: None },
+            _ => RelayConnectionState::Disconnected {
+                last_error: Some(Arc::new(AnyError::from(std::io::Error::other("verif")))),
+            },
+        }
+    }
+
+    /// A clonable handle to a real [`HomeRelayWatch`].
+    #[derive(Debug, Clone, Default)]
+    pub struct HomeRelay(HomeRelayWatch);
+
+    impl HomeRelay {
+        /// A fresh watch without home relay.
+        pub fn new() -> Self {
+            Self::default()
+        }
+
+        /// `HomeRelayWatch::set(url, Connecting)` as done by `RelayActor::on_network_change`.
+        pub fn set(&self, url: RelayUrl) {
+            self.0.set(url, RelayConnectionState::Connecting);
+        }
+
+        /// `HomeRelayWatch::clear()`.
+        pub fn clear(&self) {
+            self.0.clear();
+        }
+
+        /// `HomeRelayWatch::set_status(url, state)` as done by an `ActiveRelayActor`.
+        pub fn set_status(&self, url: &RelayUrl, state: StateCode) {
+            self.0.set_status(url, state_of(state));
+        }
+
+        /// The advertised home relay and the code of its connection state.
+        pub fn get(&self) -> Option<(RelayUrl, StateCode)> {
+            self.0.get().map(|st| decode(&st))
+        }
+
+        /// The value seen by a public watcher ([`HomeRelayWatch::watch`]).
+        pub fn watched(&self) -> Option<(RelayUrl, StateCode)> {
+            use n0_watcher::Watcher;
+            self.0.watch().get().map(|st| decode(&st))
+        }
+    }
+
+    fn decode(st: &RelayStatus) -> (RelayUrl, StateCode) {
+        let url = st.url().clone();
+        let code = if st.is_connected() {
+            1
+        } else if st.last_error().is_some() {
+            3
+        } else if *st == RelayStatus::new(url.clone(), RelayConnectionState::Connecting) {
+            0
+        } else {
+            2
+        };
+        (url, code)
+    }
 }
 
 #[cfg(test)]
